@@ -97,13 +97,21 @@ def named_ranges(run, addrs):
         doc = Document("spreadsheet")
         body = doc.body
         body.clear()
-        t1, t2 = Table("first one"), Table("other")
+        # other tables whose names are contained in the renamed table's name (and the reverse)
+        t1, t2 = Table("first one"), Table("one")
         body.append(t1)
         body.append(t2)
+        body.append(Table("first"))
+        body.append(Table("the first one here"))
         t1 = body.get_table(0)
         t1.set_named_range("ra", (0, 0, 1, 1))
         t1.set_named_range("rb", "C3")
         body.get_table(1).set_named_range("rc", "A1")
+        body.get_table(2).set_named_range("rd", "B2")
+        body.get_table(3).set_named_range("re", "A2")
+        own = sorted(n.name for n in t1.get_named_ranges(table_name="first one"))
+        if own != ["ra", "rb"]:
+            run.violation("named-ranges|lookup-by-table-name", {"kind": "lookup", "got": own, "want": ["ra", "rb"]})
         run.count()
         try:
             t1.name = new
@@ -112,7 +120,8 @@ def named_ranges(run, addrs):
         except Exception as ex:  # noqa: BLE001
             run.violation("rename|exc", {"kind": "exc", "name": new, "got": repr(ex)})
             continue
-        want = {"ra": (new, [0, 0, 1, 1]), "rb": (new, [2, 2, 2, 2]), "rc": ("other", [0, 0, 0, 0])}
+        want = {"ra": (new, [0, 0, 1, 1]), "rb": (new, [2, 2, 2, 2]), "rc": ("one", [0, 0, 0, 0]), "rd": ("first", [1, 1, 1, 1]),
+                "re": ("the first one here", [0, 1, 0, 1])}
         run.klass("rename", "quoted" if any(ch in new for ch in " .'$") else "bare")
         if got != want:
             run.violation("rename|ranges-not-updated", {"kind": "rename", "name": new, "got": got, "want": want})
